@@ -66,6 +66,12 @@ fn producers(bytes: &[u8]) -> Option<Producers> {
     Some(out)
 }
 
+/// one case in three runs all its configurations with synthetic names for
+/// anonymous items on (a sixth switch; it only adds names to the name section)
+thread_local! {
+    static SYNTHETIC: std::cell::Cell<bool> = std::cell::Cell::new(false);
+}
+
 fn cfg_of(bits: u8) -> wal::Cfg {
     wal::Cfg {
         names: bits & 1 != 0,
@@ -73,7 +79,7 @@ fn cfg_of(bits: u8) -> wal::Cfg {
         dwarf: bits & 4 != 0,
         code_transform: bits & 8 != 0,
         only_stable: bits & 16 != 0,
-        synthetic_names: false,
+        synthetic_names: SYNTHETIC.with(|s| s.get()),
     }
 }
 
@@ -178,6 +184,11 @@ pub fn check(_ctx: &Ctx, input: &Input) -> CaseResult {
         _ => return Ok(out),
     };
     out.hash = fnv(&bytes);
+    let synthetic = (out.hash >> 24) % 3 == 0;
+    SYNTHETIC.with(|s| s.set(synthetic));
+    if synthetic {
+        out.label("config:synthetic-names");
+    }
     let valid = [
         validate_with(&bytes, walrus_features(false)).is_ok(),
         validate_with(&bytes, walrus_features(true)).is_ok(),
